@@ -24,12 +24,15 @@ fi
 if [ "$TIER" = "replay" ]; then exec ./bin/vsched_$TAG replay "$2"; fi
 ./bin/vsched_$TAG explore "$TIER"
 rc=$?
-if [ "$TIER" = "thorough" ] && [ $rc -eq 0 ]; then
-  # supplementary, not the deciding step: the same bodies free-running under the race detector
+ITER=60; [ "$TIER" = "thorough" ] && ITER=400
+if [ $rc -eq 0 ]; then
+  # supplementary, not the deciding step: the same scenario bodies free-running under the race
+  # detector (catches accesses the syntactic instrumentation cannot see, e.g. through aliases
+  # handed to other packages); a report here is a VIOLATION and an instrumentation gap
   if go build $MODFLAG -race -tags verif -overlay "$WORK/overlay.json" -o bin/vsched-race_$TAG ./cmd/vsched 2> bin/build18r_$TAG.err; then
     for p in 2 16; do
-      GOMAXPROCS=$p ./bin/vsched-race_$TAG free 300 > bin/race_${TAG}_$p.out 2>&1
-      if grep -q "DATA RACE" bin/race_${TAG}_$p.out; then
+      GOMAXPROCS=$p ./bin/vsched-race_$TAG free $ITER > bin/race_${TAG}_$p.out 2>&1
+      if grep -q "DATA RACE\|fatal error: concurrent map" bin/race_${TAG}_$p.out; then
         OUT="${VERIF_OUT:-$PWD}"; mkdir -p "$OUT/violations/C18"; cp bin/race_${TAG}_$p.out "$OUT/violations/C18/free_running_race_$p.txt"
         echo "VIOLATION property=C18 replay=$OUT/violations/C18/free_running_race_$p.txt"
         echo "  key=free-running|race-detector (an instrumentation gap: the explorer did not see this race)"
